@@ -57,7 +57,7 @@ def generate(info):
     w('#endif')
     w('static void T(const std::string& what, const std::string& who, long v = 0) { '
       'vf::emit("{\\"k\\":\\"t\\",\\"what\\":\\"" + what + "\\",\\"who\\":\\"" + who + "\\",\\"v\\":" + std::to_string(v) + "}"); }')
-    w('int main(int argc, char** argv) {')
+    w('static int run_one(int argc, char** argv) {')
     w('  std::string sched = argc > 1 ? argv[1] : "s:"; std::string progs = argc > 2 ? argv[2] : "1.0;1.0;1";')
     w('#ifdef VERIF_SCHED')
     w('  vs::S().parse(sched);')
@@ -78,8 +78,11 @@ def generate(info):
     if not info.create:
         w('  upump.reset(new dzn::pump()); urt.reset(new dzn::runtime()); loc.set(*upump).set(*urt);')
     w(f'  {info.sns}::ILog log{{')
+    # every informational log call is a scheduling point (the user's logger runs on the client
+    # thread, outside the selector's critical sections on the unchanged code); the Select/Deselect
+    # lines also mark the gap between the forwarded call and the (de)selection for the oracle
     w('    [](const std::string& m) { if (m.find("/Select/") != std::string::npos || '
-      'm.find("/Deselect/") != std::string::npos) { T("gap", m); hook(); } },')
+      'm.find("/Deselect/") != std::string::npos) T("gap", m); else T("info", vf::esc(m)); hook(); },')
     w('    [](const std::string& m) { T("warn", vf::esc(m)); },')
     w('    [](const std::string& m) { T("error", vf::esc(m)); }};')
     w('  Shell sh(loc, log, "inst");')
@@ -146,9 +149,11 @@ def generate(info):
     w('  }')
     w('#ifdef VERIF_SCHED')
     w('  vs::S().run();')
+    w('  auto emit_decisions = [] { std::string d; for (auto& x : vs::S().decisions) d += x + " "; '
+      'vf::emit("{\\"k\\":\\"decisions\\",\\"d\\":\\"" + d + "\\"}"); };')
     w('  bool dl = vs::S().deadlock;')
     w('  if (dl) { std::string st; for (auto& a : vs::S().actors) st += a.name + "=" + std::to_string((int)a.st) + " "; '
-      'T("deadlock", st); std::cout << std::flush; std::_Exit(3); }')
+      'T("deadlock", st); emit_decisions(); std::cout << std::flush; std::_Exit(3); }')
     w('  if (vs::S().outcome == 2) { T("free-deadlock", "main"); std::cout << std::flush; std::_Exit(5); }')
     w('  if (vs::S().outcome == 1) { T("free-completed", "main"); for (auto& x : th) x.join(); '
       'std::cout << std::flush; std::_Exit(4); }')
@@ -164,5 +169,32 @@ def generate(info):
     w('#endif')
     w('  T("end", "main");')
     w('  return 0;')
+    w('}')
+    # batch mode (scheduler build): one process serves many schedules, each in a forked child, so
+    # that a sweep does not pay for a Python-side process start per schedule.  stdin: lines
+    # "<schedule> <programs>"; after each child a line {"k":"done","rc":<exit status or -signal>}.
+    # The batch stops at the first child that hangs or deadlocks (rc 99 for the rest).
+    w('#include <sys/wait.h>\n#include <unistd.h>')
+    w('int main(int argc, char** argv) {')
+    w('#ifdef VERIF_SCHED')
+    w('  if (argc > 1 && std::string(argv[1]) == "--batch") {')
+    w('    std::string line; bool stop = false;')
+    w('    while (std::getline(std::cin, line)) {')
+    w('      if (line.empty()) continue;')
+    w('      if (stop) { std::cout << "{\\"k\\":\\"done\\",\\"rc\\":99}" << std::endl; continue; }')
+    w('      auto sp = line.find(\' \'); std::string a = line.substr(0, sp), b = line.substr(sp + 1);')
+    w('      std::cout << std::flush; std::cerr << std::flush;')
+    w('      pid_t pid = fork();')
+    w('      if (pid == 0) { alarm(40); dup2(1, 2); char* av[] = {argv[0], (char*)a.c_str(), (char*)b.c_str(), nullptr}; '
+      'int rc = run_one(3, av); std::cout << std::flush; _exit(rc); }')
+    w('      int st = 0; waitpid(pid, &st, 0);')
+    w('      int rc = WIFEXITED(st) ? WEXITSTATUS(st) : -WTERMSIG(st);')
+    w('      if (rc == 5 || rc == -14) stop = true;')
+    w('      std::cout << "{\\"k\\":\\"done\\",\\"rc\\":" << rc << "}" << std::endl;')
+    w('    }')
+    w('    return 0;')
+    w('  }')
+    w('#endif')
+    w('  return run_one(argc, argv);')
     w('}')
     return '\n'.join(o) + '\n'
